@@ -165,7 +165,7 @@ def domain_cells(kind, size, cut=0):
     return sorted(cells)
 
 
-def render_rows(kind, size, contents, cut=0, strip_trailing=True):
+def render_rows(kind, size, contents, cut=0, strip_trailing=True, trim_rows=False):
     """Token rows (top line first) showing ``contents`` ({(i,j): label}); other cells are placeholders.
 
     Returns (rows, offsets) where offsets are indentations in half token spacings.
@@ -226,6 +226,19 @@ def render_rows(kind, size, contents, cut=0, strip_trailing=True):
                     row = row[:-1]
             new.append(row)
         rows = new
+    if trim_rows:
+        # rows without any label that a user would simply not write, where the conventions allow it: rows are counted from the
+        # top in corners-up maps (empty BOTTOM rows can go) and from the bottom in Cartesian maps (empty TOP rows can go); 1/3
+        # maps already end at the last occupied row; full flats-up maps need both ends (the bottom line tells the cut)
+        def empty(row):
+            return all(t == PLACEHOLDER for t in row)
+
+        if kind == "hexFullTips":
+            while len(rows) > 1 and empty(rows[-1]):
+                rows, offs = rows[:-1], offs[:-1]
+        elif kind == "cart":
+            while len(rows) > 1 and empty(rows[0]):
+                rows, offs = rows[1:], offs[1:]
     m = min(offs) if offs else 0
     return rows, [o - m for o in offs]
 
